@@ -154,5 +154,315 @@ theorem lexEmitText_sim (hops : OpsSim env.ops inpS inpW δ K) {d : Nat} {ab ab'
         exact hl.emitted hn ls.lexemeStart (by omega) (fun _ => by omega) rfl (by simp only; omega) hl.fd
           (Or.inl ⟨rfl, rfl⟩) ⟨rfl, rfl⟩ (Or.inl ⟨rfl, rfl⟩)
 
+theorem SigRel.none_left {d : Nat} {s : Option Signal} (h : SigRel δ d none s) : s = none := by
+  cases s with
+  | none => rfl
+  | some s => exact h.elim
+
+theorem SigRel.none_right {d : Nat} {s : Option Signal} (h : SigRel δ d s none) : s = none := by
+  cases s with
+  | none => rfl
+  | some s => cases s <;> exact h.elim
+
+theorem andThen_sim {ab1 ab2 : Ab} {rs rw : M κ × Option Signal} {gs gw : M κ → M κ × Option Signal}
+    (h : ActSim δ K ab1 true rs rw)
+    (hg : ∀ ms mw, MRel δ 0 0 ab1 .none ms mw → K 0 ms.x.sink mw.x.sink → ActSim δ K ab2 true (gs ms) (gw mw)) :
+    ActSim δ K ab2 true (andThen rs gs) (andThen rw gw) := by
+  unfold andThen
+  rcases h with hp | ⟨hs, hm⟩
+  · left
+    revert hp
+    cases rs.2 with
+    | none => intro hp; exact hp.elim
+    | some s => intro hp; exact hp
+  · cases hrs : rs.2 with
+    | none =>
+      rw [hrs] at hs
+      rw [hs.none_left]
+      obtain ⟨h1, h2⟩ := hm (Or.inl hrs)
+      exact hg _ _ h1 h2
+    | some s =>
+      rw [hrs] at hs
+      cases hrw : rw.2 with
+      | none => rw [hrw] at hs; cases hs.none_right
+      | some s' =>
+        rw [hrw] at hs
+        right
+        refine ⟨hs, fun hh => ?_⟩
+        rcases hh with hh | hh
+        · cases hh
+        · cases hh
+
+/-- `emit_eof` -/
+theorem lexEmitEof_sim (hops : OpsSim env.ops inpS inpW δ K) {ab : Ab} {ms mw : M κ}
+    (h : MRel δ 0 0 ab .none ms mw) (hK : K 0 ms.x.sink mw.x.sink) (hP : ab.P = true) (hn : ab.noLex) :
+    ActSim δ K ab true (lexEmitEof env inpS ms) (lexEmitEof env inpW mw) := by
+  obtain ⟨hc, hr, hsim, hpc⟩ := h
+  unfold lexEmitEof
+  cases hrs : ms.r with
+  | lexer ls =>
+    cases hrw : mw.r with
+    | lexer lw =>
+      rw [hrs, hrw] at hr
+      have hl : LexRel δ 0 ab ms.c.nextPos ls lw := hr
+      have hp := hl.p hP
+      have hpos : mw.c.pos = ms.c.pos + δ := hc.pos (by omega)
+      have hposs : ms.c.pos + 1 = ms.c.nextPos := by unfold Common.pos; omega
+      simp only
+      rw [hpos]
+      exact lexEmitNonTag_sim hops (some .eof) ms.c.pos hc hl hsim hpc hK hn (by omega)
+        (fun _ => by omega) rfl rfl hl.fd (Or.inl ⟨rfl, rfl⟩) ⟨rfl, rfl⟩ (Or.inl ⟨rfl, rfl⟩) true
+    | scanner sw => rw [hrs, hrw] at hr; exact hr.elim
+  | scanner ss =>
+    cases hrw : mw.r with
+    | lexer lw => rw [hrs, hrw] at hr; exact hr.elim
+    | scanner sw =>
+      simp only
+      exact ActSim.ret ⟨hc, by rw [hrs, hrw] at hr; rw [hrs, hrw]; exact hr, hsim, hpc⟩ hK
+
+/-! ### `emit_tag` -/
+
+theorem lexGetFeedback_sh (cfg : TagCfg) (sim : Sim) (fd : FeedbackDirective) (t : TagOutline) :
+    lexGetFeedback cfg sim fd (shTag δ t) = lexGetFeedback cfg sim fd t := by
+  cases t <;> rfl
+
+theorem mapM_sh {α β : Type} (f f' : α → Option β) (g : α → α) (h : ∀ a b, f a = some b → f' (g a) = some b) :
+    ∀ (as : List α) (l : List β), as.mapM f = some l → (as.map g).mapM f' = some l := by
+  intro as
+  induction as with
+  | nil => intro l hl; simpa using hl
+  | cons a as ih =>
+    intro l hl
+    simp only [List.mapM_cons, Option.bind_eq_bind, Option.bind_eq_some_iff, Option.pure_def, Option.some.injEq] at hl
+    obtain ⟨b, hb, bs, hbs, rfl⟩ := hl
+    simp only [List.map_cons, List.mapM_cons, Option.bind_eq_bind, Option.pure_def]
+    rw [h a b hb, ih bs hbs]
+    rfl
+
+theorem tagViewFor_sh (F : Frame inpS inpW δ) (k : RLKind) (t : TagOutline) (v : TagView)
+    (h : tagViewFor k inpS t = some v) : tagViewFor k inpW (shTag δ t) = some v := by
+  have hattr1 : ∀ (as : List AttrOutline) l,
+      as.mapM (fun (a : AttrOutline) => (checkedSlice inpS a.name).map fun n => (n, ([] : Bytes))) = some l →
+      (as.map (shA δ)).mapM (fun (a : AttrOutline) => (checkedSlice inpW a.name).map fun n => (n, ([] : Bytes))) = some l := by
+    apply mapM_sh
+    intro a b hb
+    simp only [Option.map_eq_some_iff] at hb
+    obtain ⟨n, hn, rfl⟩ := hb
+    simp only [shA, F.checkedSlice hn, Option.map_some]
+  have hattr2 : ∀ (as : List AttrOutline) l,
+      as.mapM (fun (a : AttrOutline) =>
+        match checkedSlice inpS a.name, checkedSlice inpS a.value with
+        | some x, some y => some (x, y)
+        | _, _ => none) = some l →
+      (as.map (shA δ)).mapM (fun (a : AttrOutline) =>
+        match checkedSlice inpW a.name, checkedSlice inpW a.value with
+        | some x, some y => some (x, y)
+        | _, _ => none) = some l := by
+    apply mapM_sh
+    intro a b hb
+    split at hb
+    · rename_i x y hx hy
+      simp only [shA, F.checkedSlice hx, F.checkedSlice hy]
+      exact hb
+    · cases hb
+  cases k <;> cases t <;> simp only [tagViewFor, shTag] at h ⊢
+  · exact h
+  · exact h
+  · simp only [Option.map_eq_some_iff] at h ⊢
+    obtain ⟨l, hl, rfl⟩ := h
+    exact ⟨l, hattr1 _ _ hl, rfl⟩
+  · exact h
+  · split at h
+    · cases h
+    · rename_i nb hnb
+      rw [F.checkedSlice hnb]
+      simp only
+      split
+      · rename_i hcond
+        rw [if_pos hcond] at h
+        simp only [Option.map_eq_some_iff] at h ⊢
+        obtain ⟨l, hl, rfl⟩ := h
+        exact ⟨l, hattr2 _ _ hl, rfl⟩
+      · rename_i hcond
+        rw [if_neg hcond] at h
+        exact h
+  · exact h
+  · exact h
+  · simp only [Option.map_eq_some_iff] at h ⊢
+    obtain ⟨nb, hnb, rfl⟩ := h
+    exact ⟨nb, F.checkedSlice hnb, rfl⟩
+
+/-- results of `handle_tree_builder_feedback` in the two runs -/
+def FbRel (δ np : Nat) : Except Err (Common × Sim) → Except Err (Common × Sim) → Prop
+  | .error (.panic _), _ => True
+  | .error e, .error e' => e' = e
+  | .ok a, .ok b => CRel δ 0 a.1 b.1 ∧ b.2 = a.2 ∧ a.1.nextPos = np
+  | _, _ => False
+
+theorem FbRel.err (np : Nat) (e : Err) : FbRel δ np (.error e) (.error e) := by
+  cases e <;> first | exact rfl | exact trivial
+
+theorem lexHandleFeedback_sim (F : Frame inpS inpW δ) {cs cw : Common} (hc : CRel δ 0 cs cw) (sim : Sim)
+    (f : Feedback) (t : TagOutline) :
+    FbRel δ cs.nextPos (lexHandleFeedback inpS cs sim f t) (lexHandleFeedback inpW cw sim f (shTag δ t)) := by
+  have hsimple : ∀ (sim' : Sim) (f' : Feedback),
+      FbRel δ cs.nextPos
+        (match f' with
+          | .switchTextType t => (.ok ({ cs with lastTextType := t }, sim') : Except Err (Common × Sim))
+          | .setAllowCdata b => .ok ({ cs with cdataAllowed := b }, sim')
+          | .none => .ok (cs, sim')
+          | .requestLexeme _ => .error (.panic "nested RequestLexeme"))
+        (match f' with
+          | .switchTextType t => (.ok ({ cw with lastTextType := t }, sim') : Except Err (Common × Sim))
+          | .setAllowCdata b => .ok ({ cw with cdataAllowed := b }, sim')
+          | .none => .ok (cw, sim')
+          | .requestLexeme _ => .error (.panic "nested RequestLexeme")) := by
+    intro sim' f'
+    cases f' with
+    | switchTextType t => exact ⟨{ hc with lastTextType := rfl }, rfl, rfl⟩
+    | setAllowCdata b => exact ⟨{ hc with cdataAllowed := rfl }, rfl, rfl⟩
+    | none => exact ⟨hc, rfl, rfl⟩
+    | requestLexeme k => exact trivial
+  unfold lexHandleFeedback
+  cases f with
+  | requestLexeme k =>
+    simp only
+    cases hv : tagViewFor k inpS t with
+    | none => exact trivial
+    | some v =>
+      rw [tagViewFor_sh F k t v hv]
+      simp only
+      cases hcb : sim.runCallback k v with
+      | none => exact trivial
+      | some sf => exact hsimple sf.1 sf.2
+  | switchTextType t => exact hsimple sim (.switchTextType t)
+  | setAllowCdata b => exact hsimple sim (.setAllowCdata b)
+  | none => exact hsimple sim .none
+
+theorem lexStampTag_sh {cs cw : Common} (hc : CRel δ 0 cs cw) (sim : Sim) (t : TagOutline) :
+    CRel δ 0 (lexStampTag cs sim t).1 (lexStampTag cw sim (shTag δ t)).1 ∧
+    (lexStampTag cw sim (shTag δ t)).2 = shTag δ (lexStampTag cs sim t).2 ∧
+    (lexStampTag cs sim t).1.nextPos = cs.nextPos := by
+  cases t with
+  | startTag n h ns as sc => exact ⟨{ hc with lastStartTagNameHash := rfl }, rfl, rfl⟩
+  | endTag n h => exact ⟨hc, rfl, rfl⟩
+
+/-- `emit_tag_lexeme` and the directive the sink returns -/
+theorem lexEmitTagLexeme_sim (hops : OpsSim env.ops inpS inpW δ K) {ab ab' : Ab} {cs cw : Common}
+    {ls lw ls0 lw0 : LexRegs} {xs xw : Ctx κ} (sim : Sim) (t : TagOutline) (es : Nat)
+    (hc : CRel δ 0 cs cw) (hl : LexRel δ 0 ab cs.nextPos ls0 lw0)
+    (hpc : xs.prevConsumed = xw.prevConsumed + δ) (hK : K 0 xs.sink xw.sink)
+    (hn : ab'.noLex) (hle : es ≤ cs.nextPos) (hp : ab'.P = true → es + 1 ≤ cs.nextPos)
+    (hls : ls.lexemeStart = ls0.lexemeStart) (hlw : lw.lexemeStart = lw0.lexemeStart) (hfd : lw.fd = ls.fd)
+    (htag : ls.curTag = none ∧ lw.curTag = none)
+    (hattr : ls.curAttr = ls0.curAttr ∧ lw.curAttr = lw0.curAttr)
+    (hnt : ls.curNonTag = ls0.curNonTag ∧ lw.curNonTag = lw0.curNonTag) :
+    ActSim δ K ab' true (lexEmitTagLexeme env inpS cs ls xs sim t es)
+      (lexEmitTagLexeme env inpW cw lw xw sim (shTag δ t) (es + δ)) := by
+  unfold lexEmitTagLexeme
+  have hraw : (⟨lw.lexemeStart, es + δ⟩ : Range) = shR δ ⟨ls.lexemeStart, es⟩ := by
+    have := hl.ls_eq
+    simp only [shR, hls, hlw, Range.mk.injEq]; exact ⟨by omega, trivial⟩
+  simp only
+  rw [hraw]
+  have hop := hops.tag xw.prevConsumed ⟨ls.lexemeStart, es⟩ t xs.sink xw.sink hK
+  rw [← hpc] at hop
+  have hl' : LexRel δ 0 ab' cs.nextPos { ls with lexemeStart := es } { lw with lexemeStart := es + δ } :=
+    hl.emitted hn es hle hp rfl rfl hfd (Or.inr htag) hattr (Or.inl hnt)
+  rcases hop with hpan | ⟨hres, hK'⟩
+  · left
+    revert hpan
+    generalize (env.ops.handleTag inpS ⟨xs.prevConsumed, ⟨ls.lexemeStart, es⟩, t⟩ xs.sink).2 = r
+    intro hpan
+    match r, hpan with
+    | .error (.panic _), _ => exact trivial
+  · right
+    rw [hres]
+    generalize (env.ops.handleTag inpS ⟨xs.prevConsumed, ⟨ls.lexemeStart, es⟩, t⟩ xs.sink).2 = r
+    match r with
+    | .error e => exact ⟨rfl, fun hh => by rcases hh with hh | hh <;> cases hh⟩
+    | .ok .lex => exact ⟨trivial, fun _ => ⟨⟨hc, hl', rfl, hpc⟩, hK'⟩⟩
+    | .ok .scan =>
+      refine ⟨⟨rfl, ?_⟩, fun hh => by rcases hh with hh | hh <;> cases hh⟩
+      exact ⟨hc.cdataAllowed, hc.lastTextType, hc.lastStartTagNameHash, rfl, rfl⟩
+
+/-- `emit_tag` -/
+theorem lexEmitTag_sim (F : Frame inpS inpW δ) (hops : OpsSim env.ops inpS inpW δ K) {ab ab' : Ab} {cs cw : Common}
+    {ls lw : LexRegs} {xs xw : Ctx κ}
+    (hc : CRel δ 0 cs cw) (hl : LexRel δ 0 ab cs.nextPos ls lw) (hP : ab.P = true) (hGn : ab.Gn = true)
+    (hGa : ab.Ga = true)
+    (hsim : xw.sim = xs.sim) (hpc : xs.prevConsumed = xw.prevConsumed + δ) (hK : K 0 xs.sink xw.sink)
+    (hn : ab'.noLex) (hP' : ab'.P = false) :
+    ActSim δ K ab' true (lexEmitTag env inpS cs ls xs) (lexEmitTag env inpW cw lw xw) := by
+  have hp := hl.p hP
+  have hnp := hc.nextPos
+  have hpos : cw.pos = cs.pos + δ := hc.pos (by omega)
+  have hposs : cs.pos + 1 = cs.nextPos := by unfold Common.pos; omega
+  have htag := hl.tag
+  unfold lexEmitTag
+  cases hts : ls.curTag with
+  | none =>
+    rw [hts] at htag
+    cases htw : lw.curTag with
+    | some t' => rw [htw] at htag; exact htag.elim
+    | none => exact Or.inr ⟨rfl, fun hh => by rcases hh with hh | hh <;> cases hh⟩
+  | some t =>
+    rw [hts] at htag
+    cases htw : lw.curTag with
+    | none => rw [htw] at htag; exact htag.elim
+    | some t' =>
+      rw [htw] at htag
+      have htr : TagRel δ ls.lexemeStart true true t t' := by
+        have : TagRel δ ls.lexemeStart ab.Gn ab.Ga t t' := htag
+        rw [hGn, hGa] at this; exact this
+      have ht' : t' = shTag δ t := htr.eq_sh
+      subst ht'
+      simp only
+      rw [hsim, hl.fd, lexGetFeedback_sh]
+      cases hfb : lexGetFeedback env.cfg xs.sim ls.fd t with
+      | error e => exact Or.inr ⟨rfl, fun hh => by rcases hh with hh | hh <;> cases hh⟩
+      | ok sf =>
+        simp only
+        have hc1 : CRel δ 0 { cs with lastTextType := .data } { cw with lastTextType := .data } :=
+          { hc with lastTextType := rfl }
+        have happ : FbRel δ cs.nextPos
+            (match sf.2 with
+              | some f => lexHandleFeedback inpS { cs with lastTextType := .data } sf.1 f t
+              | none => .ok ({ cs with lastTextType := .data }, sf.1))
+            (match sf.2 with
+              | some f => lexHandleFeedback inpW { cw with lastTextType := .data } sf.1 f (shTag δ t)
+              | none => .ok ({ cw with lastTextType := .data }, sf.1)) := by
+          cases sf.2 with
+          | some f => exact lexHandleFeedback_sim F hc1 sf.1 f t
+          | none => exact ⟨hc1, rfl, rfl⟩
+        have hfin : ∀ (as aw : Except Err (Common × Sim)), FbRel δ cs.nextPos as aw →
+            ActSim δ K ab' true
+              (match as with
+                | .error e => ((⟨{ cs with lastTextType := .data }, .lexer { ls with curTag := none, fd := .none }, { xs with sim := sf.1 }⟩ : M κ), some (.err e))
+                | .ok c2 => lexEmitTagLexeme env inpS (lexStampTag c2.1 c2.2 t).1 { ls with curTag := none, fd := .none } xs c2.2
+                    (lexStampTag c2.1 c2.2 t).2 (({ cs with lastTextType := .data } : Common).pos + 1))
+              (match aw with
+                | .error e => ((⟨{ cw with lastTextType := .data }, .lexer { lw with curTag := none, fd := .none }, { xw with sim := sf.1 }⟩ : M κ), some (.err e))
+                | .ok c2 => lexEmitTagLexeme env inpW (lexStampTag c2.1 c2.2 (shTag δ t)).1 { lw with curTag := none, fd := .none } xw c2.2
+                    (lexStampTag c2.1 c2.2 (shTag δ t)).2 (({ cw with lastTextType := .data } : Common).pos + 1)) := by
+          intro as aw happ
+          match as, aw, happ with
+          | .error (.panic _), _, _ => exact Or.inl trivial
+          | .error (.ambiguity _), .error _, h => cases h; exact Or.inr ⟨rfl, fun hh => by rcases hh with hh | hh <;> cases hh⟩
+          | .error .handler, .error _, h => cases h; exact Or.inr ⟨rfl, fun hh => by rcases hh with hh | hh <;> cases hh⟩
+          | .error .mem, .error _, h => cases h; exact Or.inr ⟨rfl, fun hh => by rcases hh with hh | hh <;> cases hh⟩
+          | .error (.internal _), .error _, h => cases h; exact Or.inr ⟨rfl, fun hh => by rcases hh with hh | hh <;> cases hh⟩
+          | .ok a, .ok b, ⟨hab, hsims, hnpa⟩ =>
+            simp only
+            obtain ⟨hst1, hst2, hst3⟩ := lexStampTag_sh hab a.2 t
+            rw [hsims, hst2]
+            have e1 : ({ cw with lastTextType := TextType.data } : Common).pos + 1 = cs.pos + 1 + δ := by
+              show cw.pos + 1 = _; omega
+            rw [e1]
+            have hl2 : LexRel δ 0 ab (lexStampTag a.1 a.2 t).1.nextPos ls lw := by rw [hst3, hnpa]; exact hl
+            exact lexEmitTagLexeme_sim hops a.2 (lexStampTag a.1 a.2 t).2 (cs.pos + 1) hst1 hl2 hpc hK hn
+              (by rw [hst3, hnpa]; omega) (fun g => by rw [hP'] at g; cases g) rfl rfl rfl ⟨rfl, rfl⟩ ⟨rfl, rfl⟩ ⟨rfl, rfl⟩
+        exact hfin _ _ happ
+
 end
 end LolHtml.Model.Chunk
